@@ -5,11 +5,13 @@ package main
 // return sites, go/cfg for path rules.
 
 import (
+	"os"
 	"fmt"
 	"go/ast"
 	"go/token"
 	"go/types"
 	"strings"
+	"sync"
 
 	"golang.org/x/tools/go/cfg"
 )
@@ -116,9 +118,91 @@ func errorIface() *types.Interface {
 	return types.Universe.Lookup("error").Type().Underlying().(*types.Interface)
 }
 
+// parseVerdict: the parser rules of package k, on the package as written or —
+// when that leaves failures and inlining the error/ok-guarded calls of
+// ParseVector (normalize2.go) decides more — on the equivalent inlined program.
+type parseVerdict struct {
+	pkg   *Pkg
+	obls  []Obligation
+	notes []string
+}
+
+var parseVerdictMu sync.Mutex
+
+func (w *World) parseVerdictOf(k string) *parseVerdict {
+	parseVerdictMu.Lock()
+	defer parseVerdictMu.Unlock()
+	if w.parseVerdicts == nil {
+		w.parseVerdicts = map[string]*parseVerdict{}
+	}
+	if v, ok := w.parseVerdicts[k]; ok {
+		return v
+	}
+	v := &parseVerdict{pkg: w.Pkgs[k]}
+	w.parseVerdicts[k] = v
+	w.rulesParsePkg(w.Pkgs[k], &v.obls)
+	bad := 0
+	for _, o := range v.obls {
+		if !o.OK {
+			bad++
+		}
+	}
+	if bad == 0 || w.normalized {
+		return v
+	}
+	w2, notes, err := w.inlinedParserWorld(k)
+	if err != nil || w2 == nil {
+		if err != nil {
+			w.Extra["parse_normalisation_"+k] = "not applicable: " + err.Error()
+		}
+		return v
+	}
+	var second []Obligation
+	w2.rulesParsePkg(w2.Pkgs[k], &second)
+	bad2 := 0
+	for _, o := range second {
+		if !o.OK {
+			bad2++
+		}
+	}
+	w.Extra["parse_normalisation_"+k] = fmt.Sprintf("%d failing obligations before, %d after: %s", bad, bad2, strings.Join(notes, "; "))
+	if os.Getenv("CVSSCHECK_DEBUG") != "" {
+		for _, o := range second {
+			if !o.OK {
+				println("DBG second:", o.Rule, o.Instance, o.Pos, o.Detail)
+			}
+		}
+	}
+	undec := func(obls []Obligation) int {
+		n := 0
+		for _, o := range obls {
+			if !o.OK && strings.Contains(o.Detail, "undecided") {
+				n++
+			}
+		}
+		return n
+	}
+	// the inlined program is preferred when it decides more
+	if bad2 == 0 || bad2 < bad || undec(second) < undec(v.obls) {
+		second = append(second, Obligation{Rule: "R01.pair", Instance: k + ".ParseVector.normalised", Pos: k, OK: true, NonTrivial: true,
+			Detail: "ParseVector analysed after source-level inlining of its guarded helper calls (equivalent program, type-checked through an overlay): " + strings.Join(notes, "; ")})
+		v.pkg, v.obls, v.notes = w2.Pkgs[k], second, notes
+	}
+	return v
+}
+
 func (w *World) rulesParse(out *[]Obligation) {
 	for _, k := range w.Order {
-		w.rulesParsePkg(w.Pkgs[k], out)
+		*out = append(*out, w.parseVerdictOf(k).obls...)
+		// the bounded scanner tabulation runs on the program as written
+		p := w.Pkgs[k]
+		w.rulesScan(p, func(ok bool, rule, inst string, n ast.Node, detail string) {
+			pos := k
+			if n != nil {
+				pos = p.pos(n)
+			}
+			*out = append(*out, Obligation{Rule: rule, Instance: k + "." + inst, Pos: pos, OK: ok, Detail: detail, NonTrivial: true})
+		})
 	}
 	// R13.const: headers pairwise prefix-incomparable, and none is a prefix of / prefixed by "AV:"
 	heads := map[string]string{}
@@ -209,7 +293,14 @@ func (p *Pkg) fillParseModel(m *parseModel) (kvmCall *ast.CallExpr) {
 		}
 	}
 	// the element split, generally: the statement that defines the
-	// identifier Set receives as its abbreviation
+	// identifier Set receives as its abbreviation (a first guess that defines
+	// neither of Set's arguments — e.g. the scanner's own Cut at '/' — is dropped)
+	if m.splitAs != nil && m.setCall != nil && len(m.setCall.Args) == 2 {
+		ao, vo := identObj(info, m.setCall.Args[0]), identObj(info, m.setCall.Args[1])
+		if ao != nil && vo != nil && (m.abvObj != ao || m.valObj != vo) && !(m.abvObj == vo && m.valObj == ao) {
+			m.splitAs, m.splitFn, m.abvObj, m.valObj = nil, nil, nil, nil
+		}
+	}
 	if m.splitAs == nil && m.setCall != nil && len(m.setCall.Args) == 2 && m.loop != nil {
 		ao, vo := identObj(info, m.setCall.Args[0]), identObj(info, m.setCall.Args[1])
 		if ao != nil && vo != nil {
@@ -537,6 +628,27 @@ func (w *World) rulesParsePkg(p *Pkg, out *[]Obligation) {
 		add(ok, "R06.cut", "inline", m.splitAs, why)
 	} else if m.splitFn.Pkg() == p.P.Types {
 		ok, why := p.checkSplitCouple(p.FuncObj[m.splitFn])
+		if !ok {
+			// a scanner method that ends in `return cut(element)`: the cut is that function
+			if sfd := p.FuncObj[m.splitFn]; sfd != nil && sfd.Body != nil && len(sfd.Body.List) > 0 {
+				if rs, isRet := sfd.Body.List[len(sfd.Body.List)-1].(*ast.ReturnStmt); isRet && len(rs.Results) == 1 {
+					if c, isCall := rs.Results[0].(*ast.CallExpr); isCall && len(c.Args) == 1 {
+						if g := calleeOf(info, c); g != nil && g.Pkg() == p.P.Types && p.FuncObj[g] != nil && g != m.splitFn {
+							nret := 0
+							ast.Inspect(sfd.Body, func(x ast.Node) bool {
+								if _, isR := x.(*ast.ReturnStmt); isR {
+									nret++
+								}
+								return true
+							})
+							if ok2, why2 := p.checkSplitCouple(p.FuncObj[g]); ok2 && nret == 1 {
+								ok, why = true, why2+" ("+g.Name()+", whose result "+m.splitFn.Name()+" returns unchanged)"
+							}
+						}
+					}
+				}
+			}
+		}
 		if !ok {
 			// not the recognised loop: evaluate the split statement itself
 			if ok2, why2, decided := p.checkCutBounded(m); decided {
@@ -1584,6 +1696,41 @@ func (p *Pkg) checkRegionCutBounded(m *parseModel) (ok bool, why string, decided
 			}
 			return true
 		})
+	}
+	// an integer the region reads as a position inside a string (a scanner fused
+	// with the split) cannot be bound to a meaningful value here
+	fused := false
+	for _, st := range m.splitRegion {
+		ast.Inspect(st, func(n ast.Node) bool {
+			chk := func(e ast.Expr) {
+				if e == nil {
+					return
+				}
+				ast.Inspect(e, func(y ast.Node) bool {
+					if id, ok := y.(*ast.Ident); ok {
+						if o, ok := info.Uses[id].(*types.Var); ok && free[o] && isIntT(o.Type()) {
+							fused = true
+						}
+					}
+					return true
+				})
+			}
+			switch x := n.(type) {
+			case *ast.SliceExpr:
+				if tv, ok := info.Types[x.X]; ok && isStringT(tv.Type) {
+					chk(x.Low)
+					chk(x.High)
+				}
+			case *ast.IndexExpr:
+				if tv, ok := info.Types[x.X]; ok && isStringT(tv.Type) {
+					chk(x.Index)
+				}
+			}
+			return true
+		})
+	}
+	if fused {
+		return false, "", false
 	}
 	alphabet := []byte{'a', 'b', ':', '/'}
 	n := 0
